@@ -470,6 +470,10 @@ def collision_cases(chk, root):
         ('an input of the base name of a file included from elsewhere',
          {'a.prophy': '#include "b.prophy"\nstruct A { B b; };\n', 'b.prophy': 'struct B { u8 b; };\n', 'other/b.prophy': 'struct Other { u64 o; };\n'},
          ['a.prophy', 'other/b.prophy'], ['--python_out', '@O']),
+        ('a file reached directly and through a symbolic link in a directory with another d.prophy',
+         {'r/c.prophy': '#include "d.prophy"\nstruct C { D d; };\n', 'r/d.prophy': 'struct D { u8 x; };\n', 'r/e.prophy': '#include "c.prophy"\nstruct E { C c; };\n',
+          'l/d.prophy': 'struct D { u64 x; u64 y; };\n', 'l/c.prophy': '->../r/c.prophy'},
+         ['l/c.prophy', 'r/e.prophy'], ['--cpp_out', '@O']),
         ('one input the C++ full generator refuses', {'good.prophy': 'struct Good { u8 a; };\n', 'two.prophy': 'struct Two { u8 n; u8 a<@n>; u16 b<@n>; };\n'},
          ['good.prophy', 'two.prophy'], ['--python_out', '@O', '--cpp_full_out', '@O']),
     ]
@@ -479,6 +483,9 @@ def collision_cases(chk, root):
             cd = os.path.join(d, 'c%d_%d' % (k, oi))
             for n, t in files.items():
                 os.makedirs(os.path.dirname(os.path.join(cd, n)), exist_ok=True)
+                if t.startswith('->'):
+                    os.symlink(t[2:], os.path.join(cd, n))
+                    continue
                 with open(os.path.join(cd, n), 'w') as f:
                     f.write(t)
             out = os.path.join(cd, 'out')
